@@ -35,6 +35,8 @@ From BP Require Import Model.C03Chain Proofs.C03ChainB Proofs.C03ChainC Proofs.C
 From BP Require Model.Json Spec.Wire Proofs.C02Abs Proofs.C04Def Proofs.C08EvoDef Model.C08Step Model.C17Typed Model.C10Stream Model.C10Rt.
 From BP Require Model.History Model.C14Ops Model.C14Pickle Proofs.C14Thm Proofs.C05MsgDef Proofs.C05AccDef Proofs.C05Model Spec.C06Wire Model.C06Obs.
 From BP Require Model.C07Ops Model.C07Wire Proofs.C07InvP Proofs.C07ValP.
+From BP Require Import Proofs.C03GapA Proofs.C03GapWit Proofs.C03GapB Proofs.C03GapWit2.
+From BP Require Model.C01Reach Model.C01Parse Model.C17Nested.
 From Coq Require Import String.
 Open Scope list_scope.
 Open Scope Z_scope.
@@ -693,3 +695,254 @@ Example C03_ex_chain_oneof :
   | Err _ => False
   end.
 Proof. exact chain_oneof. Qed.
+
+(* =====================================================================================================================
+   SIXTH BATCH: the property text compared clause by clause with the theorems above (table: header of Proofs/C03GapA.v).
+   Notation: spec_field .. pkg p m x = Some pf reads "pf is the field the schema denotes for field x of message m (path p) of
+   package pkg"; by C03_compiled_message_class the fields of the class the plugin emits for m are related to md_fields m by
+   exactly this, one by one and in order, so every reading below is a statement about the plugin's output.
+   ===================================================================================================================== *)
+
+(* clauses (1) + (2): the modules are exactly the generated packages (each once, order of first appearance); in each module
+   there are exactly as many classes as the package has enums + non-map-entry messages, named after them in order, pairwise
+   distinct (and the types' paths are pairwise distinct); CONVERSELY every class of the table is the class of an enum or of a
+   non-map-entry message of D (no extra class, none for a map-entry type); the table is unique *)
+Theorem C03_classes_exact :
+  forall (field_name class_name : str -> str) (enum_member_name : str -> str -> str) (D : descriptor),
+    protoc_wf D = true -> names_ok field_name class_name enum_member_name D = true ->
+    exists t, reflect (compile field_name class_name enum_member_name D) = Ok t
+      /\ (forall t', reflect (compile field_name class_name enum_member_name D) = Ok t' -> t' = t)
+      /\ map fst t = output_packages D /\ NoDup (map fst t)
+      /\ forall pkg cls, In (pkg, cls) t ->
+           map fst cls = map (fun q => class_name (dotted q)) (class_paths D pkg)
+           /\ List.length cls = List.length (class_paths D pkg)
+           /\ NoDup (map fst cls) /\ NoDup (class_paths D pkg)
+           /\ forall n body, In (n, body) cls ->
+                pkg <> google_protobuf /\
+                ((exists p e, In (SymEnum pkg p e) (symbols D) /\ n = class_name (dotted p)
+                    /\ body = ClsEnum (map (fun nv => (enum_member_name (fst nv) (flat p), snd nv)) (ed_values e)))
+                 \/ (exists p m fs, In (SymMsg pkg p m) (symbols D) /\ md_map_entry m = false /\ n = class_name (dotted p)
+                       /\ body = ClsMessage fs
+                       /\ Forall2 (fun x pf => spec_field field_name class_name D pkg p m x = Some pf) (md_fields m) fs)).
+Proof. exact compiled_classes_exact. Qed.
+Print Assumptions C03_classes_exact.
+
+(* clauses (2) + (3): EACH message (nested ones included: symbols D lists every depth) of a generated package has its class in
+   the one module of its package, that class is the only one of its name there, and it has exactly one field per schema field:
+   as many, same numbers and pythonised names in order, names pairwise distinct, each related to its schema field by spec_field *)
+Theorem C03_compiled_message_class :
+  forall (field_name class_name : str -> str) (enum_member_name : str -> str -> str) (D : descriptor),
+    protoc_wf D = true -> names_ok field_name class_name enum_member_name D = true ->
+    forall pkg p m, In (SymMsg pkg p m) (symbols D) -> pkg <> google_protobuf -> md_map_entry m = false ->
+    exists t cls fs, reflect (compile field_name class_name enum_member_name D) = Ok t
+      /\ In (pkg, cls) t /\ (forall cls', In (pkg, cls') t -> cls' = cls)
+      /\ In (class_name (dotted p), ClsMessage fs) cls
+      /\ (forall body, In (class_name (dotted p), body) cls -> body = ClsMessage fs)
+      /\ Forall2 (fun x pf => spec_field field_name class_name D pkg p m x = Some pf) (md_fields m) fs
+      /\ List.length fs = List.length (md_fields m)
+      /\ map pf_number fs = map fd_number (md_fields m)
+      /\ map pf_name fs = map (fun x => field_name (fd_name x)) (md_fields m)
+      /\ NoDup (map pf_name fs).
+Proof. exact compiled_message_class. Qed.
+Print Assumptions C03_compiled_message_class.
+
+(* clauses (2) + (4): each enum has its one class; its members are (pythonised name, THE SCHEMA'S NUMBER) in declaration
+   order - no condition on the numbers, so negative and aliased (repeated) numbers are carried as they are; names distinct *)
+Theorem C03_compiled_enum_class :
+  forall (field_name class_name : str -> str) (enum_member_name : str -> str -> str) (D : descriptor),
+    protoc_wf D = true -> names_ok field_name class_name enum_member_name D = true ->
+    forall pkg p e, In (SymEnum pkg p e) (symbols D) -> pkg <> google_protobuf ->
+    exists t cls ms, reflect (compile field_name class_name enum_member_name D) = Ok t
+      /\ In (pkg, cls) t /\ In (class_name (dotted p), ClsEnum ms) cls
+      /\ (forall body, In (class_name (dotted p), body) cls -> body = ClsEnum ms)
+      /\ ms = map (fun nv => (enum_member_name (fst nv) (flat p), snd nv)) (ed_values e)
+      /\ map snd ms = map snd (ed_values e)
+      /\ NoDup (map fst ms).
+Proof. exact compiled_enum_class. Qed.
+Print Assumptions C03_compiled_enum_class.
+
+(* clause (3), the readings of one field; for every descriptor, package, message, field (no side condition) *)
+(* cardinality "map": map_types is present iff the hint is a Dict iff the field is a map in the specification's reading *)
+Theorem C03_field_map_iff :
+  forall field_name class_name D pkg p m x pf, spec_field field_name class_name D pkg p m x = Some pf ->
+    is_some (pf_map_types pf) = spec_is_map pkg p m x
+    /\ ((exists k v, pf_hint pf = PyDict k v) <-> spec_is_map pkg p m x = true)
+    /\ (spec_is_map pkg p m x = true ->
+        pf_proto_type pf = s_map /\ pf_group pf = None /\ pf_wraps pf = None /\ pf_optional pf = false).
+Proof. exact field_map_iff. Qed.
+Print Assumptions C03_field_map_iff.
+
+(* "... with its key and value types": of the nested map-entry type of the parent whose full name IS the field's type name,
+   the fields NUMBERED 1 and 2 (not the first and second) give the two proto types and the two Python types *)
+Theorem C03_field_map_types :
+  forall field_name class_name D pkg p m x pf, spec_field field_name class_name D pkg p m x = Some pf ->
+  forall e, spec_map_entry pkg p m x = Some e ->
+    In e (md_nested m) /\ md_map_entry e = true /\ full_name pkg (p ++ [md_name e]) = fd_type_name x
+    /\ exists k v kn vn kt vt,
+         field_numbered 1 e = Some k /\ field_numbered 2 e = Some v
+         /\ kind_name (fd_type k) = Some kn /\ kind_name (fd_type v) = Some vn
+         /\ spec_value_type class_name D k = Some kt /\ spec_value_type class_name D v = Some vt
+         /\ pf_map_types pf = Some (kn, vn) /\ pf_hint pf = PyDict kt vt.
+Proof. exact field_map_types. Qed.
+Print Assumptions C03_field_map_types.
+
+(* cardinality "repeated": a List hint exactly for the non-map fields with label repeated *)
+Theorem C03_field_repeated_iff :
+  forall field_name class_name D pkg p m x pf, spec_field field_name class_name D pkg p m x = Some pf ->
+    ((exists u, pf_hint pf = PyList u) <-> (spec_is_map pkg p m x = false /\ fd_label x = L_REPEATED)).
+Proof. exact field_repeated_iff. Qed.
+Print Assumptions C03_field_repeated_iff.
+
+(* cardinality "optional": the flag is exactly proto3_optional on a non-map field, and the hint of such a (non-repeated) field is
+   Optional[value type] (a wrapper's Optional is not doubled) *)
+Theorem C03_field_optional_iff :
+  forall field_name class_name D pkg p m x pf, spec_field field_name class_name D pkg p m x = Some pf ->
+    pf_optional pf = negb (spec_is_map pkg p m x) && fd_proto3_optional x
+    /\ (spec_is_map pkg p m x = false -> fd_label x <> L_REPEATED -> fd_proto3_optional x = true ->
+        exists u, pf_hint pf = PyOptional u /\ spec_value_type class_name D x = Some u \/
+                  spec_value_type class_name D x = Some (PyOptional u) /\ pf_hint pf = PyOptional u).
+Proof. exact field_optional_iff. Qed.
+Print Assumptions C03_field_optional_iff.
+
+(* cardinality "singular": the hint is the value type itself *)
+Theorem C03_field_singular :
+  forall field_name class_name D pkg p m x pf, spec_field field_name class_name D pkg p m x = Some pf ->
+    spec_is_map pkg p m x = false -> fd_label x <> L_REPEATED -> fd_proto3_optional x = false ->
+    spec_value_type class_name D x = Some (pf_hint pf) /\ pf_optional pf = false /\ pf_map_types pf = None.
+Proof. exact field_singular. Qed.
+Print Assumptions C03_field_singular.
+
+(* oneof group: group = g EXACTLY for the members of a real oneof (oneof_index present, not the synthetic oneof of a proto3
+   optional, not a map) whose declared name is g *)
+Theorem C03_field_group_iff :
+  forall field_name class_name D pkg p m x pf, spec_field field_name class_name D pkg p m x = Some pf ->
+  forall g, pf_group pf = Some g <->
+    (spec_is_map pkg p m x = false /\ fd_proto3_optional x = false
+     /\ exists i, fd_oneof_index x = Some i /\ 0 <= i < Zlength (md_oneofs m) /\ g = nth (Z.to_nat i) (md_oneofs m) []).
+Proof. exact field_group_iff. Qed.
+Print Assumptions C03_field_group_iff.
+
+(* scalar type: for each of the scalar kinds of descriptor.proto the field carries the kind's name as proto_type, the kind's
+   Python type under the cardinality's hint shape, no wraps, no map types; and there are exactly 15 such kinds *)
+Theorem C03_field_scalar :
+  forall field_name class_name D pkg p m x pf, spec_field field_name class_name D pkg p m x = Some pf ->
+  forall n py, scalar_kind (fd_type x) = Some (n, py) ->
+    spec_is_map pkg p m x = false /\ pf_proto_type pf = n /\ pf_wraps pf = None /\ pf_map_types pf = None
+    /\ pf_hint pf = plain_hint x py.
+Proof. exact field_scalar. Qed.
+Print Assumptions C03_field_scalar.
+
+Theorem C03_scalar_kinds_15 :
+  List.length scalar_numbers = 15%nat
+  /\ nodupb (map (fun t => match scalar_kind t with Some (n, _) => n | None => [] end) scalar_numbers) = true
+  /\ (forall t, is_some (scalar_kind t) = true -> In t scalar_numbers).
+Proof. exact scalar_kinds_15. Qed.
+Print Assumptions C03_scalar_kinds_15.
+
+(* wrapper / Timestamp / Duration mapping: wraps = Some k EXACTLY for the message-typed fields whose type name is one of the nine
+   wrappers of wrappers.proto, k the scalar kind of its value; hint Optional[py]; Timestamp -> datetime, Duration -> timedelta *)
+Theorem C03_field_wkt_iff :
+  forall field_name class_name D pkg p m x pf, spec_field field_name class_name D pkg p m x = Some pf ->
+  spec_is_map pkg p m x = false ->
+    (forall k, pf_wraps pf = Some k <->
+               (fd_type x = T_MESSAGE /\ exists py, lookup (fd_type_name x) wkt_wrappers = Some (k, py)))
+    /\ (forall k py, fd_type x = T_MESSAGE -> lookup (fd_type_name x) wkt_wrappers = Some (k, py) ->
+          pf_proto_type pf = s_message /\ pf_hint pf = plain_hint x (PyOptional py))
+    /\ (fd_type x = T_MESSAGE -> fd_type_name x = wkt_timestamp -> pf_hint pf = plain_hint x PyDatetime /\ pf_wraps pf = None)
+    /\ (fd_type x = T_MESSAGE -> fd_type_name x = wkt_duration -> pf_hint pf = plain_hint x PyTimedelta /\ pf_wraps pf = None).
+Proof. exact field_wkt_iff. Qed.
+Print Assumptions C03_field_wkt_iff.
+
+(* ---- non-vacuity of the sixth batch ---- *)
+(* the message Outer of D_ok meets the premises of C03_compiled_message_class (with C03_ex_premises); it has eight fields *)
+Example C03_ex_gap_message :
+  In (SymMsg (b "p.q") [b "Outer"] gap_outer) (symbols D_ok) /\ b "p.q" <> google_protobuf
+  /\ md_map_entry gap_outer = false /\ List.length (md_fields gap_outer) = 8%nat.
+Proof. exact gap_outer_in. Qed.
+(* spec_field gives each of them a meaning (the premise of the C03_field_* readings), and the readings are the expected
+   non-trivial ones: (number, map?, oneof member?, optional flag, wraps?) *)
+Example C03_ex_gap_fields :
+  map (fun x => match spec_field w_field_name w_class_name D_ok (b "p.q") [b "Outer"] gap_outer x with
+                | Some pf => (pf_number pf, is_some (pf_map_types pf), is_some (pf_group pf), pf_optional pf, is_some (pf_wraps pf))
+                | None => (0, false, false, false, false)
+                end) (md_fields gap_outer)
+  = [(1, true, false, false, false); (2, false, true, false, false); (3, false, true, false, false);
+     (4, false, false, true, false); (5, false, false, false, false); (6, false, false, false, false);
+     (7, false, false, false, true); (8, true, false, false, false)].
+Proof. exact gap_outer_fields. Qed.
+(* the enum Color of D_ok (premise of C03_compiled_enum_class) has a negative number *)
+Example C03_ex_gap_enum :
+  exists e, In (SymEnum (b "p.q") [b "Color"] e) (symbols D_ok) /\ existsb (fun nv => snd nv <? 0) (ed_values e) = true.
+Proof. exact gap_enum_in. Qed.
+
+(* ---- hypotheses: exactness (clause (1), gaps b and c) ---- *)
+(* protoc_wf cannot be dropped: a map-entry type whose fields come as (value = 2, key = 1) - names_ok holds, protoc_wf fails
+   (map_entry_wf), and the plugin, which reads the entry's fields BY POSITION, is not the schema's table (key and value swapped) *)
+Theorem C03_protoc_wf_needed_refuted :
+  protoc_wf D_swapped = false /\ names_ok w_field_name w_class_name w_member_name D_swapped = true
+  /\ differs w_field_name w_class_name w_member_name D_swapped = true.
+Proof. exact protoc_wf_needed_refuted. Qed.
+Print Assumptions C03_protoc_wf_needed_refuted.
+
+(* every one of the seven conjuncts of names_ok is needed on its own: for each there is a protoc_wf descriptor set (and a naming)
+   on which exactly that conjunct fails and the plugin's table differs from the schema's
+   (conjuncts = [pkg_names_ok; flat_dotted_ok; class_nodup; fields_nodup; members_nodup; map_keys_ok; wraps_ok]) *)
+Theorem C03_names_ok_conjuncts_exact :
+  (protoc_wf D_k2 = true /\ conjuncts w_field_name w_class_name w_member_name D_k2 = [false; true; true; true; true; true; true]
+   /\ differs w_field_name w_class_name w_member_name D_k2 = true)
+  /\ (protoc_wf D_flat = true /\ conjuncts w_field_name w_class_id w_member_name D_flat = [true; false; true; true; true; true; true]
+      /\ differs w_field_name w_class_id w_member_name D_flat = true)
+  /\ (protoc_wf D_k1 = true /\ conjuncts w_field_name w_class_name w_member_name D_k1 = [true; true; false; true; true; true; true]
+      /\ differs w_field_name w_class_name w_member_name D_k1 = true)
+  /\ (protoc_wf D_k8 = true /\ conjuncts w_field_name w_class_name w_member_name D_k8 = [true; true; true; false; true; true; true]
+      /\ differs w_field_name w_class_name w_member_name D_k8 = true)
+  /\ (protoc_wf D_members = true /\ conjuncts w_field_name w_class_name w_member_strip D_members = [true; true; true; true; false; true; true]
+      /\ differs w_field_name w_class_name w_member_strip D_members = true)
+  /\ (protoc_wf D_k13 = true /\ conjuncts w_field_name w_class_name w_member_name D_k13 = [true; true; true; true; true; false; true]
+      /\ differs w_field_name w_class_name w_member_name D_k13 = true)
+  /\ (protoc_wf D_wraps = true /\ conjuncts w_field_name w_class_name w_member_name D_wraps = [true; true; true; true; true; true; false]
+      /\ differs w_field_name w_class_name w_member_name D_wraps = true).
+Proof. exact names_ok_conjuncts_exact. Qed.
+Print Assumptions C03_names_ok_conjuncts_exact.
+
+(* ---- compositions (clause (6)) ---- *)
+(* C01 with its value hypotheses discharged (C01_roundtrip_reachable_parse), for generated classes: every object that a history of
+   public-API operations - parse included - reaches from a fresh instance of a generated class round-trips in full; the only
+   hypotheses left are the descriptor-level ones and the decidable operation-level hist_ok *)
+Theorem C03_generated_roundtrip_reachable :
+  forall (field_name class_name : str -> str) (enum_member_name : str -> str -> str) (D : descriptor),
+    protoc_wf D = true -> names_ok field_name class_name enum_member_name D = true -> bridge_ok D = true ->
+    exists t, reflect (compile field_name class_name enum_member_name D) = Ok t /\
+      let sc := schema_of_table t in
+      forall c ops m,
+        C01Reach.hist_ok C01Parse.op_reach_ok_p sc (new sc c) ops = true -> C07Ops.run7 sc (new sc c) ops = Ok m ->
+        exists bs, enc_obj sc m = Ok bs /\
+          (Zlength bs < 2 ^ 64 ->
+           exists m', parse sc (ocls m) bs = Ok m' /\ m' = norm_obj sc m /\
+             (deep nan_free (PMsg m) = true -> obj_eq sc m m' = true) /\
+             (forall g, which_one_of m' g = which_one_of m g) /\
+             obs_top sc m m' = true /\
+             enc_obj sc m' = Ok bs).
+Proof. exact generated_roundtrip_reachable. Qed.
+Print Assumptions C03_generated_roundtrip_reachable.
+
+(* C17_accept_iff for generated classes: a generated class parses a byte string iff the string is [valid] for it *)
+Theorem C03_generated_accept_iff :
+  forall (field_name class_name : str -> str) (enum_member_name : str -> str -> str) (D : descriptor),
+    protoc_wf D = true -> names_ok field_name class_name enum_member_name D = true -> bridge_ok D = true ->
+    exists t, reflect (compile field_name class_name enum_member_name D) = Ok t /\
+      let sc := schema_of_table t in
+      forall c bs, (exists m, parse sc c bs = Ok m) <-> C17Nested.valid sc c bs.
+Proof. exact generated_accept_iff. Qed.
+Print Assumptions C03_generated_accept_iff.
+
+(* non-vacuity (descriptor-level premises: C03_ex_chain_premises): the history ok_ops on the generated class Outer meets hist_ok
+   and selects the second member of the oneof; Outer accepts ok_bytes and rejects a cut record *)
+Example C03_ex_gap_reach :
+  C01Reach.hist_ok C01Parse.op_reach_ok_p S_ok (new S_ok 11) ok_ops = true
+  /\ match C07Ops.run7 S_ok (new S_ok 11) ok_ops with Ok o => which_one_of o 0 = Some 2%nat | Err _ => False end.
+Proof. exact gap_reach_hist. Qed.
+Example C03_ex_gap_accept :
+  match parse S_ok 11 ok_bytes with Ok _ => True | Err _ => False end
+  /\ match parse S_ok 11 [x0a; x05] with Ok _ => False | Err _ => True end.
+Proof. exact gap_accept. Qed.
